@@ -8,7 +8,7 @@ from . import c02
 from ..calltrace import judge_calls
 
 PID = "C03"
-TR_INV = ["FractionalConserves", "RandomIsUniform"]
+TR_INV = ["FractionalConserves", "RandomIsUniform", "PickPredicateAgrees"]
 MC = {"quick": [dict(family="droop", max_ballots=2, max_w=2)], "thorough": [dict(family="stv", max_ballots=2, max_w=2, with_half=True)]}
 
 
@@ -26,7 +26,7 @@ def call_work(inp):
     prof = E.build_profile(inp["cands"], inp["ballots"])
     base = {"op": inp["op"], "cands": inp["cands"], "winner": inp["winner"], "tally": inp["tally"], "thr": inp["thr"],
             "bag": E._abstract_bag(inp["ballots"]), "result": [], "error": "", "p": [0, 0], "_inp": inp,
-            "nonint": any(b["w"][0] % b["w"][1] != 0 for b in inp["ballots"])}
+            "nonint": any(b["w"][0] % b["w"][1] != 0 for b in inp["ballots"]), "big": bool(inp.get("big"))}
 
     def call():
         try:
@@ -38,6 +38,8 @@ def call_work(inp):
 
     law = {}
     try:
+        if inp.get("big"):
+            raise TooManyPaths("pile of thousands of votes: one seeded real draw, judged by the enumeration-free predicate IsRandomResult")
         for (res, err), pr, log in EX.runs(call, max_paths=400):
             law[(res, err)] = law.get((res, err), 0) + pr
         known = True
@@ -96,6 +98,22 @@ def call_corpus(tier, seed):
                 bl.append(b)
         rng.shuffle(bl)
         add(cands, bl, op)
+    # piles of hundreds to thousands of votes under the random rule (one seeded real draw each; TLC decides membership with the
+    # enumeration-free predicate): surplus below, equal to and above the number of transferable votes, exhausted ballots in the pile
+    for _ in range(150 if q else 3000):
+        nc = rng.randint(3, 4)
+        cands = D.ABC[:nc]
+        w0 = rng.choice(cands)
+        rk = D.untied_rankings(cands)
+        lead = [r for r in rk if r[0] == [w0]]
+        bl = [{"r": rng.choice(lead), "w": [rng.randint(1, rng.choice([40, 600, 2500, 6000])), 1]} for _ in range(rng.randint(1, 4))]
+        bl += [{"r": rng.choice(rk), "w": [rng.randint(1, 3000), 1]} for _ in range(rng.randint(0, 3))]
+        rng.shuffle(bl)
+        tally = sum(b["w"][0] for b in bl if b["r"][0] == [w0])
+        transferable = sum(b["w"][0] for b in bl if b["r"][0] == [w0] and len(b["r"]) > 1)
+        surplus = rng.choice([rng.randint(0, tally - 1), max(0, min(tally - 1, transferable + rng.randint(-2, 2))), rng.randint(0, min(tally - 1, 20))])
+        inputs.append({"op": "random", "cands": cands, "ballots": bl, "winner": w0, "tally": [tally, 1], "thr": tally - surplus, "aslist": rng.random() < 0.5,
+                       "seed": rng.randrange(10**6), "big": True})
     # the documented rejection: non-integer weights under the random rule
     for _ in range(20 if q else 200):
         bag = D.random_bag(rng, c3, 3, rational=1.0, wmax=2, min_ballots=1)
@@ -124,10 +142,18 @@ def wide_transfer(res, tier, seed):
             w = F(rng.randint(1, 9) * scale + rng.randint(0, 50), rng.choice([1, 1, 3, 7, 4000037]))
             ballots.append((rng.choice(rk), w))
         winner = rng.choice(cands)
+        tiny = rng.random() < 0.3
+        if tiny:
+            # a surplus of about one vote out of 10^9 .. 10^13: continuing ballots carry 1e-9 .. 1e-13 of a vote -- still votes
+            big = rng.choice([10**9 + 7, 10**10 + 19, 10**12 + 39, 10**13 + 37])
+            lead = [r for r in rk if r[0] == [winner]]
+            ballots = [(rng.choice(lead), F(big))] + [(rng.choice(lead), F(rng.randint(1, 9), rng.choice([1, 1, 2, 3]))) for _ in range(rng.randint(1, 3))] \
+                + [(rng.choice(rk), F(rng.randint(1, 9))) for _ in range(rng.randint(0, 2))]
+            rng.shuffle(ballots)
         tally = sum((w for r, w in ballots if r[0] == [winner]), F(0))
         if tally < 2:
             continue
-        thr = rng.randint(1, int(tally))
+        thr = rng.randint(1, int(tally)) if not tiny else int(tally) - rng.choice([0, 0, 1, 2])
         n += 1
         bl = [Ballot(ranking=tuple(frozenset(p) for p in r), weight=w) for r, w in ballots]
         want = {}
